@@ -28,6 +28,7 @@ type vfRemoteHost struct {
 	streams   []*vfRStream
 	openErr   bool
 	onWrite   func() // runs when the remote has received a complete request
+	slowOpens bool   // NewStream may take a second and may fail only then
 	simple    bool   // remote behaviours limited to answer or simpleBad; opening and writing never fail
 	simpleBad int
 }
@@ -69,6 +70,16 @@ func (h *vfRemoteHost) NewStream(ctx context.Context, p peer.ID, _ ...protocol.I
 	}
 	if !h.simple && vfBool("newStream.fails") {
 		return nil, errors.New("cannot open stream")
+	}
+	if h.slowOpens {
+		// opening may take a second (the peer is being dialled) and may fail only then
+		switch vfChoose("newStream.timing", 3) {
+		case 1:
+			time.Sleep(time.Second)
+		case 2:
+			time.Sleep(time.Second)
+			return nil, errors.New("dial failed")
+		}
 	}
 	s := &vfRStream{h: h, id: len(h.streams), avail: make(chan struct{}, 64)}
 	h.streams = append(h.streams, s)
@@ -343,5 +354,47 @@ func VfConcurrentExchanges() {
 	vfReach("reply/concurrent-end")
 }
 
+// VfStaggeredExchanges (C11): two callers 500 ms apart and an optional
+// disconnect in between, with stream opens that may take a second and fail only
+// then; followed by a later request. Replies match their requests, nothing
+// panics, and at rest the peer has at most one open stream.
+func VfStaggeredExchanges() {
+	h := &vfRemoteHost{ps: &vfLatencyStore{}, simple: true, slowOpens: true}
+	m := NewMessageSenderImpl(h, []protocol.ID{"/vf/kad/1.0.0"})
+	p := peer.ID("remote")
+	h.simpleBad = 0 // the remote answers every request it receives
+	done := 0
+	call := func(id string) {
+		ctx, cancel := context.WithCancel(context.Background())
+		resp, err := m.SendRequest(ctx, p, pb.NewMessage(pb.Message_FIND_NODE, []byte(id), 0))
+		cancel()
+		if err == nil {
+			vfAssert(resp != nil && string(resp.GetKey()) == id, "reply/is-the-reply-to-that-very-request")
+		} else {
+			vfAssert(resp == nil, "reply/no-reply-with-error")
+		}
+		done++
+	}
+	go call("request-a")
+	vfAdvance(300 * time.Millisecond)
+	if vfBool("disconnect") {
+		h.dropConnection()
+		m.OnDisconnect(context.Background(), p)
+	}
+	vfAdvance(200 * time.Millisecond)
+	go call("request-b")
+	vfAdvance(time.Minute)
+	vfWaitIdle()
+	vfAssert(done == 2, "reply/every-concurrent-call-returns")
+	h.slowOpens = false
+	call("later")
+	vfAdvance(time.Minute)
+	vfWaitIdle()
+	vfAssert(h.openStreams() <= 1, "stream/at-most-one-open-stream-per-peer-at-rest")
+	vfAssert(vfBlockedGoroutines() <= 1, "reply/no-reader-goroutine-left-on-a-dead-stream")
+	vfReach("reply/staggered-end")
+}
+
 var _ = vfRegister("VfRequestReplyMatching", VfRequestReplyMatching)
+var _ = vfRegister("VfStaggeredExchanges", VfStaggeredExchanges)
 var _ = vfRegister("VfConcurrentExchanges", VfConcurrentExchanges)
